@@ -1,7 +1,8 @@
 // C20 registry: harness-level object ids -> objects; runs one op in an object and prints the uid snapshot
 #include "/include/vcommon.h"
 mapping obs = ([]);
-void create () { }
+// `cfg simul`: the simul_efun object is /c20/simul and is an actor like any other, id `se`
+void create () { if (find_object ("/c20/simul")) obs["se"] = find_object ("/c20/simul"); }
 void reg (string oid, object ob) { obs[oid] = ob; }
 void unreg (string oid) { map_delete (obs, oid); }
 object get (string oid) { if (oid == "m") return master (); return obs[oid]; }
@@ -24,11 +25,19 @@ void snap () {
 }
 mapping scripts = ([]);
 mapping pols = ([ "cf" : ([ "u1" : "s:u1", "u2" : "s:u2", "bb" : "s:Backbone", "root" : "s:Root", "odd" : "i:0" ]),
-                  "vs" : ([ ]), "co" : ([ ]) ]);
+                  "vs" : ([ ]), "co" : ([ ]), "vb" : ([ ]) ]);
+mapping uid_names = ([ ]);      // "root" / "bb" -> what get_root_uid() / get_bb_uid() of the master answer now
+void set_uid_name (string kind, string n) { uid_names[kind] = n; }
+string uid_name (string kind) { return uid_names[kind]; }
 int vseq = 0;
 mapping pol (string kind) { return pols[kind]; }
 int next_v () { return ++vseq; }
 int nest = 0;
+// the objects running ops, innermost last (run_op pushes / pops): the creating object of a creator_file call
+string *actors = ({ });
+void push_actor (string o) { actors += ({ o }); }
+void pop_actor () { if (sizeof (actors)) actors = actors[0..sizeof (actors) - 2]; }
+string cur_actor () { return sizeof (actors) ? actors[sizeof (actors) - 1] : "?"; }
 void set_script (string key, string ops) { if (ops == "-") map_delete (scripts, key); else scripts[key] = ops; }
 string script (string key) { return scripts[key]; }
 void enter () { nest++; }
@@ -39,6 +48,7 @@ void act (string oid, string op) {
   mixed e;
   o = get (oid);
   nest = 0;
+  actors = ({ });
   if (!o) { VL ("do " + oid + " " + op); VL ("r nobj"); snap (); return; }
   e = catch (o->run_op (op));
   if (e) { VL ("r uncaught"); snap (); }
